@@ -241,10 +241,7 @@ class Engine(  # pylint:disable=too-few-public-methods
 
                 np_or_pd_dtype = data_type
             elif is_pyarrow_dtype(data_type):
-                # pylint: disable=cyclic-import
-                # register pyarrow datatypes
-                import pandera.engines.pyarrow_engine
-
+                # the pyarrow datatypes are registered by this module
                 np_or_pd_dtype = data_type.pyarrow_dtype
             elif is_extension_dtype(data_type) and isinstance(data_type, type):
                 try:
